@@ -171,6 +171,9 @@ def gen_value(src, T, good=True, depth=0):
             items = items + [src.pick(["x", None])]
         return ["tuple", items]
     if k == "bounded":
+        if "gt" in T[2]:  # exclusive lower bound: the bound itself is the nearest non-member
+            lo = T[2]["gt"]
+            return src.pick([lo + 1, lo + 2, lo + 5]) if good else src.pick([lo, lo - 1, lo - 5, "x", None, ["dict", []], ["dict", [["x", 1]]]])
         lo = T[2].get("ge", 0)
         return src.pick([lo, lo + 1, lo + 5]) if good else src.pick([lo - 1, lo - 5, "x", None, ["dict", []], ["dict", [["x", 1]]]])
     if k == "validated":
@@ -459,6 +462,12 @@ def gen_world(src, profile):
                     c.setdefault("prepare", {})[a["name"]] = src.pick(PREPARERS[T[0]])
                 if is_collection(T) and elem_type(T)[0] in ITEM_PREPARERS and src.chance(1, 3):
                     c.setdefault("prepare_item", {})[a["name"]] = src.pick(ITEM_PREPARERS[elem_type(T)[0]])
+                if profile.get("lookup_preparers"):
+                    # a preparer that resolves a shorthand (any string) to an object the instance ALREADY holds elsewhere
+                    if T[0] == "spec" and T[1] in ("U", "N") and src.chance(1, 3):
+                        c.setdefault("prepare", {})[a["name"]] = "lookup"
+                    elif is_collection(T) and elem_type(T)[0] == "spec" and T[0] in ("list", "dict") and src.chance(1, 4):
+                        c.setdefault("prepare_item", {})[a["name"]] = "lookup"
             if (c.get("prepare") or c.get("prepare_item")) and src.chance(1, 3) and "prepare_style" not in c:
                 c["prepare_style"] = "decorator"  # registered through `@<attr>.preparer` where the attribute is declared with Attr(...)
         if has_parent and src.chance(1, 3):
@@ -549,6 +558,13 @@ class World:
 
         def prepare(self, v):
             world.tick(kind, name)
+            if how == "lookup":
+                if isinstance(v, str):
+                    T = POOL_TYPES[name]
+                    found = _held_instance(self, world.classes[T[1] if T[0] == "spec" else elem_type(T)[1]])
+                    if found is not None:
+                        return found
+                return v
             return apply_preparer(how, v)
 
         return prepare
@@ -870,6 +886,17 @@ def apply_preparer(how, v):
     if how == "bad_if_5":
         return "BAD" if v == 5 and not isinstance(v, bool) else v
     raise AssertionError(how)
+
+
+def _held_instance(obj, cls):
+    """The first instance of `cls` held (directly or in a plain / keyed container) by an attribute of `obj`."""
+    for name in sorted(vars(obj)):
+        v = vars(obj)[name]
+        items = list(v.values()) if isinstance(v, dict) else (list(v) if isinstance(v, (list, tuple)) or hasattr(v, "_dict") else [v])
+        for x in items:
+            if type(x) is cls:
+                return x
+    return None
 
 
 def _make_new_mixin(owner_name):
